@@ -165,6 +165,10 @@ def run(c):
             if m["size"] >= 33000:
                 c.finding_or_violation(canon("an oversize message was put on the wire"), {"history": x["msgs"]})
             described.add(m["type"])
+            if ob.get("recv_hang"):
+                c.finding_or_violation(canon("a message the sender accepted is never delivered: the receiver waits for ever", index=j), {"history": x["msgs"], "observed": o["obs"]},
+                                       klass="framed-lost")
+                break
             good = ob["recv_err"] is None
             obs_ok.append(coq_bool(good))
             if good and not (ob["seq"] == j and ob["payload_ok"] and ob["fds_ok"]):
@@ -175,6 +179,9 @@ def run(c):
                                        {"history": x["msgs"], "observed": o["obs"]})
         if o["fd_delta"] != 0:
             c.finding_or_violation({"kind": "framed-socket", "what": "descriptors leaked", "delta": o["fd_delta"]}, {"history": x["msgs"]})
+        if o.get("abandoned"):
+            c.count(("framed", str(x["msgs"])), nontrivial=True, klass="framed:abandoned")
+            continue
         c.count(("framed", str(x["msgs"])), nontrivial=anyrej, klass="framed:" + ("rejecting" if anyrej else "clean"))
         items.append("(%s, %s)" % (coq_list(mm), coq_list(obs_ok)))
     body = HDR + "Definition cs := %s.\nDefinition M := Eval vm_compute in failing framed_ok cs.\nPrint M.\n" % coq_list(items)
